@@ -56,8 +56,9 @@ def mc_plan(prop: str, tier: str) -> List[Dict[str, Any]]:
                 for s in (False, True) for mw, ms, bs in (([], [m_wait, m_sf], False), (mw2, [m_sync, m_wait], True))]
     pipe_timed = [pipe(a, s, mw1, [m_sf, m_to]) for a in ACKS for s in (False, True)]      # a timeout label: time matters
     chain_u = [{"id": 1, "style": "gen"}, {"id": 2, "style": "agen", "parent": 1, "cached": False, "suspend": True},
-               {"id": 3, "style": "acm", "cached": False}]
-    chain_c = [{"id": 1, "style": "cm"}, {"id": 2, "style": "agen", "parent": 1, "suspend": True}, {"id": 3, "style": "gen", "parent": 2}]
+               {"id": 3, "style": "acm", "cached": False, "csusp": True}]
+    chain_c = [{"id": 1, "style": "cm"}, {"id": 2, "style": "agen", "parent": 1, "suspend": True, "csusp": True},
+               {"id": 3, "style": "gen", "parent": 2}]
 
     def deps(d: List[Any], prop_: bool, msgs: List[Any], ack: str = "when_executed") -> Dict[str, Any]:
         return {"A": 2, "P": 1, "deps": d, "propagate": prop_, "ack": ack, "msgs": msgs}
@@ -105,6 +106,7 @@ def families(prop: str, tier: str, seed: int) -> List[Dict[str, Any]]:
     elif prop == "C05":
         s = g.gen_stop_sweep(seed, 600 * k) + g.gen_flow(seed, 400 * k)
         s += list(g.gen_flow_enum(4 if q else 6, g.flow_enum_cfgs([0, 1, 2], [0, 1], [0, 1, 2], [-1, 2], 3)))
+        s += g.gen_teardown_stop(seed + 1, 100 * k)
     elif prop == "C06":
         s = g.gen_deps(seed, 700 * k, uncached_p=0.5) + g.gen_deps(seed + 1, 200 * k, uncached_p=0.1) + g.gen_pipe(seed, 100 * k)
     elif prop == "C07":
@@ -113,6 +115,7 @@ def families(prop: str, tier: str, seed: int) -> List[Dict[str, Any]]:
         s = g.gen_pipe(seed, 800 * k) + list(g.gen_pipe_enum())
     elif prop == "C12":
         s = list(g.gen_deps_enum()) + g.gen_deps(seed, 500 * k) + g.gen_deps(seed + 1, 200 * k, uncached_p=0.0)
+        s += g.gen_teardown_stop(seed, 200 * k)     # shutdown / drain timeout / task timeout while a teardown is awaiting
     else:
         raise KeyError(prop)
     if prop in ("C01", "C02", "C03", "C04", "C06", "C07", "C12"):
